@@ -64,6 +64,8 @@ void OfflinePacketFilter::init(const string& pcap_filter,
     if (!handle_) {
         throw pcap_open_failed();
     }
+    // pcap_compile doesn't touch the program if it fails: don't free garbage below
+    filter_ = bpf_program();
     if (pcap_compile(handle_, &filter_, pcap_filter.c_str(), 1, 0xffffffff) == -1) {
         string error(pcap_geterr(handle_));
         pcap_freecode(&filter_);
